@@ -5,6 +5,8 @@ import (
 
 	"github.com/mosaicnetworks/babble/src/crypto/keys"
 	hg "github.com/mosaicnetworks/babble/src/hashgraph"
+	"github.com/mosaicnetworks/babble/src/net"
+	"github.com/mosaicnetworks/babble/src/node/state"
 	"github.com/mosaicnetworks/babble/src/peers"
 )
 
@@ -243,6 +245,42 @@ func VerifHarness_C14_O1() {
 		} else {
 			verifAssert("adopted-snapshot-has-known-valid-signer/frame-set-mixes-known-and-strangers", knownValid)
 		}
+	}
+	verifReach("end")
+}
+
+
+// C12/O3 — node-level flow: a refused fast-forward response must leave the
+// APPLICATION untouched as well.  Real Node.fastForward over a harness
+// transport answering with a response whose frame hash carries a symbolic XOR
+// mask and whose signatures have symbolic validity.
+func VerifHarness_C12_O3() {
+	tr := &verifTransport{consumer: make(chan net.RPC), ff: map[string]*net.FastForwardResponse{}}
+	vn := verifNewNodeT(3, 0, 1000, tr)
+	n := vn.n
+	n.SetState(state.CatchingUp)
+	members := vn.peers
+	frame := verifMkFrame(members, 5)
+	frameHash, _ := frame.Hash()
+	block := hg.NewBlock(3, 5, frameHash, members, [][]byte{[]byte("tx")}, nil, 77)
+	block.Body.FrameHash[0] ^= verifNondetByte("frameHashFlip")
+	digest, _ := block.Body.Hash()
+	for i := 1; i < 3; i++ {
+		k := verifKey(i)
+		block.Signatures[keys.PublicKeyHex(&k.PublicKey)] = verifSignature(k, digest, verifNondetBool(fmt.Sprintf("ok%d", i)))
+	}
+	tr.ff[members[1].NetAddr] = &net.FastForwardResponse{FromID: members[1].ID(), Block: *block, Frame: *frame, Snapshot: []byte("snapshot")}
+	before := vn.digest()
+	err := n.fastForward()
+	verifAssert("peers-were-asked", tr.ffCalls >= 1)
+	if err != nil {
+		verifAssert("refused-response-leaves-the-application-untouched", vn.proxy.restored == 0)
+		after := vn.digest()
+		after.ints[len(after.ints)-1] = before.ints[len(before.ints)-1] // the restore counter is asserted separately
+		verifAssert("refused-response-leaves-the-node-untouched", verifNodeDigestEq(before, after))
+	} else {
+		verifAssert("adopted-response-restored-the-application-once", vn.proxy.restored == 1)
+		verifAssert("adopted-node-is-babbling-on-the-snapshot", n.GetState() == state.Babbling && vn.store.LastBlockIndex() == 3)
 	}
 	verifReach("end")
 }
